@@ -173,10 +173,32 @@ func (w *tw) boolean(k string, v *bool) {
 		w.kv(k, fmt.Sprint(*v))
 	}
 }
+
+// integer writes a TOML integer; which of TOML's spellings is used follows from the value, so that a case renders the same
+// way every time: decimal, hexadecimal, octal, binary, with digit separators, with a plus sign.
 func (w *tw) integer(k string, v *int64) {
-	if v != nil {
-		w.kv(k, fmt.Sprint(*v))
+	if v == nil {
+		return
 	}
+	n := *v
+	text := fmt.Sprint(n)
+	if n >= 0 && n < 1<<40 {
+		switch n % 7 {
+		case 1:
+			text = fmt.Sprintf("0x%X", n)
+		case 2:
+			text = fmt.Sprintf("0o%o", n)
+		case 3:
+			text = fmt.Sprintf("0b%b", n)
+		case 4:
+			text = "+" + text
+		case 5:
+			if n >= 1000 {
+				text = fmt.Sprintf("%d_%03d", n/1000, n%1000)
+			}
+		}
+	}
+	w.kv(k, text)
 }
 func (w *tw) dur(k string, d dDur) {
 	switch d.Kind {
@@ -188,7 +210,11 @@ func (w *tw) dur(k string, d dDur) {
 	case "empty":
 		w.kv(k, `""`)
 	default:
-		w.kv(k, tq(d.Text))
+		if len(d.Text)%3 == 0 && !strings.ContainsAny(d.Text, "'\n") {
+			w.kv(k, "'"+d.Text+"'") // a TOML literal string
+		} else {
+			w.kv(k, tq(d.Text))
+		}
 	}
 }
 func (w *tw) cidr(k string, c dCIDR) {
